@@ -21,7 +21,7 @@ ASSUMPTIONS = [
     "rates are non-negative on all states the limits allow; births use bounded rates (generator construction)",
     "a per-case 60 s safety net turns a runaway simulation into 'inconclusive', never into a violation",
 ]
-BUDGET = {"quick": (4, 150), "thorough": (16, 1500)}
+BUDGET = {"quick": (4, 220), "thorough": (16, 1500)}
 TECHNIQUE = "property-based testing (Hypothesis @given over models, seeds, algorithms) with a path invariant against the abstract model's state-change matrix"
 LEVEL_TEXT = ("Exploration over programs, inputs and random streams: each generated path is checked step by step against "
               "the state-change matrix derived independently from the abstract model. Right level: the property is an "
